@@ -34,7 +34,7 @@ ASSUMPTIONS = [
 ]
 BOUNDS = {
     "quick": {"L": 6, "L_sync": 5, "L_method": 5, "limits": [1, 2, 3]},
-    "thorough": {"L": 8, "L_sync": 7, "L_method": 7, "limits": [1, 2, 3]},
+    "thorough": {"L": 7, "L_sync": 6, "L_method": 6, "limits": [1, 2, 3]},
 }
 EXHAUSTIVE = {"quick": True, "thorough": True}
 SAMPLE_EVERY = {"quick": 40000, "thorough": 900000}
